@@ -1,6 +1,7 @@
 INIT OInit
 NEXT ONext
 CONSTANT Tpl = "T4"
+INVARIANT C19_Conf_Winding
 INVARIANT C19_Conf_TableCreated
 INVARIANT C19_Conf_ZLayout
 INVARIANT C19_Conf_ZWeights
